@@ -92,6 +92,27 @@ class Check(PropCheck):
                 t2 = gen.rand_tree(rng, n, 'ones', p_multi=0.2, internal_names=0.0, names=names); kind = 'pair'
             if rng.random() < 0.3:
                 t2 = redraw_root(t2)
+            poly = [x for x in t1.nodes() if len(x.children) >= 3]
+            if poly and kind == 'pair' and rng.random() < 0.35:
+                # t2 refines a polytomy of t1 (t1's split set is a strict subset of t2's); half of the time both get two-child roots whose
+                # root splits differ (the correction of two must then appear in BOTH directions and in the report)
+                t2 = t1.copy()
+                for _ in range(rng.randint(1, 2)):
+                    cand = [x for x in t2.nodes() if len(x.children) >= 3]
+                    if not cand:
+                        break
+                    x = rng.choice(cand)
+                    ci = rng.randrange(len(x.children) - 1)
+                    x.children = x.children[:ci] + [gen.T(children=x.children[ci:ci + 2])] + x.children[ci + 2:]
+                if rng.random() < 0.5:
+                    t2 = redraw_root(t2)
+            if rng.random() < 0.15:
+                # internal labels equal to leaf labels (support values that look like taxon ids): leaf names stay unique
+                for tt in (t1, t2):
+                    leafn = [l.name for l in tt.leaves()]
+                    for nd in tt.nodes():
+                        if nd.children and rng.random() < 0.4:
+                            nd.name = rng.choice(leafn)
             ru = rng.random()
             if ru < 0.2 and kind == 'pair':
                 # unary nodes: one above the root of either tree (extra outer parentheses: the root then has ONE child, the node below it
